@@ -1517,7 +1517,7 @@ func (n *node) MakeRef() gen.Ref {
 	ref.Creation = n.creation
 	id := atomic.AddUint64(&n.uniqID, 1)
 	ref.ID[0] = id & ((2 << 17) - 1)
-	ref.ID[1] = id >> 46
+	ref.ID[1] = id >> 18
 	return ref
 }
 
